@@ -40,8 +40,19 @@ class Outcome(object):
         self.unsupported += ctx.stats["unsupported"]
 
 
+def uf_prover(ctx, pc, goal, timeout_ms=20000):
+    """prover for goals that contain transcendental UF applications: argument matching + ground facts (vlib/ufnorm.py)"""
+    from .ufnorm import UFNorm
+
+    norm = UFNorm(list(ctx.assumptions) + list(pc), timeout_ms=timeout_ms // 2)
+    r, m = norm.prove(goal, timeout_ms=timeout_ms)
+    ctx.stats["queries"] += 1 + norm.stats["arg_queries"]
+    ctx.stats["solver_s"] += norm.stats["solver_s"]
+    return r, m
+
+
 def explore_and_prove(fn, assumptions, goal_of, max_paths=5000, timeout_ms=20000, max_pow=6, out=None, max_fail=3,
-                      deadline_s=None):
+                      deadline_s=None, prover=None):
     """Explore fn under assumptions; on every path (as soon as it is explored) prove goal_of(path) (a z3 Bool, or
     None = nothing to prove, or a string = inconclusive reason).  Stops after max_fail failing paths (they are
     candidate counterexamples; more of them add nothing) or when deadline_s is used up (=> inconclusive)."""
@@ -59,7 +70,10 @@ def explore_and_prove(fn, assumptions, goal_of, max_paths=5000, timeout_ms=20000
                 continue
             if isinstance(g, bool):
                 g = z3.BoolVal(g)
-            r, m = ctx.model(*(p.pc + [z3.Not(g)]))
+            if prover is None:
+                r, m = ctx.model(*(p.pc + [z3.Not(g)]))
+            else:
+                r, m = prover(ctx, p.pc, g)
             if r == "unsat":
                 out.discharged += 1
             elif r == "sat":
